@@ -750,7 +750,69 @@ def run_envop_project(_job):
     return out
 
 
+# ---- test() / benchmark() arguments that are not strings: built targets, files, programs among the strings ---------------------
+TESTOBJ_KINDS = {'executable': ('texe', 'texe'), 'static_library': ('tlib', 'libtlib.a'), 'custom_target': ('tct', 'tct.out'),
+                 'custom_target-index': ('tct2[1]', 'tct2_b.out'), 'files': ("files('data file.txt')", 'data file.txt'),
+                 'program': ('dump', os.path.basename(DUMP)), 'native-executable': ('nexe', 'nexe')}
+TESTOBJ_STRINGS = ['before', 'two words', '$x;y', "q'uote", 'after']
+
+
+def run_testobj_project(_job):
+    from verif import mesonproc as mp
+    root = os.path.join(scratch_root(), 'c03to.%d' % os.getpid())
+    shutil.rmtree(root, ignore_errors=True)
+    dumpdir = os.path.join(root, 'dumps')
+    os.makedirs(dumpdir)
+    L = ["project('testobj', 'c', default_options: ['warning_level=0'])", "dump = find_program(%s)" % lit(DUMP),
+         "texe = executable('texe', 'main.c')", "nexe = executable('nexe', 'main.c', native: true)", "tlib = static_library('tlib', 'lib.c')",
+         "tct = custom_target('tct', output: 'tct.out', command: ['touch', '@OUTPUT@'])",
+         "tct2 = custom_target('tct2', output: ['tct2_a.out', 'tct2_b.out'], command: ['touch', '@OUTPUT@'])"]
+    plan = []
+    for kind, (expr, base) in TESTOBJ_KINDS.items():
+        for pos in range(len(TESTOBJ_STRINGS) + 1):
+            for fn in ('test', 'benchmark'):
+                name = '%s_%s_%d' % (fn[0], kind.replace('-', '_'), pos)
+                dp = os.path.join(dumpdir, name + '.dump')
+                args = [lit(x) for x in TESTOBJ_STRINGS]
+                args.insert(pos, expr)
+                L.append("%s('%s', dump, args: ['--dump=%s', %s])" % (fn, name, dp, ', '.join(args)))
+                plan.append((fn, name, kind, pos, base, dp))
+    mp.write_tree(root, {'meson.build': '\n'.join(L) + '\n', 'main.c': 'int main(void) { return 0; }\n', 'lib.c': 'int l(void) { return 0; }\n',
+                         'data file.txt': 'x\n'})
+    env = mp.base_env(home=os.path.join(root, 'home'))
+    out = {'viol': [], 'cases': 0, 'by_kind': {}, 'wrapped': 0, 'rsp_edges': 0}
+    r = mp.run_meson(['setup', 'b'], root, env=env, timeout=600)
+    if r.rc != 0:
+        out['viol'].append(('C03:testobj:setup-fails', 'meson setup rejects the project: ' + r.out[-400:], {'given': None}))
+        return out
+    bdir = os.path.join(root, 'b')
+    mp.run_meson(['test', '-C', bdir, '--no-rebuild', '--num-processes', '8'], root, env=env, timeout=600)
+    mp.run_meson(['test', '-C', bdir, '--no-rebuild', '--benchmark', '--num-processes', '8'], root, env=env, timeout=600)
+    for fn, name, kind, pos, base, dp in plan:
+        out['cases'] += 1
+        k = 'test-arg-object-' + kind
+        out['by_kind'][k] = out['by_kind'].get(k, 0) + 1
+        try:
+            args, _ = parse_dump(dp)
+        except Exception:
+            args = None
+        if args is None:
+            out['viol'].append(('C03:testobj:no-observation', '%s did not run' % name, {'given': [kind, pos]}))
+            continue
+        args = [x for x in args if not x.startswith(b'--dump=')]
+        exp = [b(x) for x in TESTOBJ_STRINGS]
+        ok = len(args) == len(exp) + 1 and args[:pos] == exp[:pos] and args[pos + 1:] == exp[pos:] and (args[pos] == b(base) or args[pos].endswith(b('/' + base)))
+        if not ok:
+            out['viol'].append(('C03:testobj:%s:%s' % (fn, 'count' if len(args) != len(exp) + 1 else 'changed'),
+                                '%s(args: [...]) with a %s at position %d of %r: the process received %r' % (fn, kind, pos, TESTOBJ_STRINGS, args),
+                                {'given': [kind, pos], 'observed': [x.decode('utf-8', 'replace') for x in args]}))
+    shutil.rmtree(root, ignore_errors=True)
+    return out
+
+
 def run_any(job):
+    if job[1] == 'TO':
+        return run_testobj_project(job)
     if job[1] == 'EO':
         return run_envop_project(job)
     if job[1] == 'PH':
@@ -793,6 +855,8 @@ def main():
         jobs.insert(0, (len(jobs), 'LANG', False))
     if ck.want('envop'):
         jobs.insert(0, (len(jobs), 'EO', False))
+    if ck.want('testobj'):
+        jobs.insert(0, (len(jobs), 'TO', False))
     if ck.want('placeholders'):
         for where in ('generator', 'custom_target'):
             for ph in PLACEHOLDERS:
